@@ -46,7 +46,9 @@ def _pairs(run: Run, model: PyModel, fi) -> list[tuple[ast.expr, ast.expr, ast.A
     return out
 
 
-SCENARIOS = [("SRCo", "DSTz", "SRCo", "DSTz"), ("SRC.zo", "DST.zo", "SRC", "DST"), ("sub/SRCz", "sub2/DSTo", "sub/SRCz", "sub2/DSTo"), ("pa.ge", "qu.ux", "pa.ge", "qu.ux")]
+SCENARIOS = [("SRCo", "DSTz", "SRCo", "DSTz"), ("SRC.zo", "DST.zo", "SRC", "DST"), ("sub/SRCz", "sub2/DSTo", "sub/SRCz", "sub2/DSTo"), ("pa.ge", "qu.ux", "pa.ge", "qu.ux"),
+             # templates and saved-query pages are linked WITH their extension; a page of the same base name is a different target
+             ("day.zot", "daily.zot", "day.zot", "daily.zot"), ("zoq/open.zoq", "zoq/todo.zoq", "zoq/open.zoq", "zoq/todo.zoq")]
 
 
 def concrete_rename(run: Run, model: PyModel) -> int:
@@ -68,6 +70,9 @@ def concrete_rename(run: Run, model: PyModel) -> int:
                     f"- look-alikes [[{name}x]] [[x{name}]] [[{name}/sub]] [[{name}.zot]] [[{name}-y]] [[{name} x]] [{name}] [[ {name}]] [#{name}] {name}\n")
 
         other = texts(S) + f"- destination links [[{D}]] [[{D}#a]]\n"
+        if "." in S.rsplit("/", 1)[-1]:
+            base = S.rsplit(".", 1)[0]
+            other += f"- the page of the same base name is somebody else: [[{base}]] [[{base}#a]] [[{base}.zo]]\n"
         sfile, dfile = (src if "." in src else src + ".zo"), (dest if "." in dest else dest + ".zo")
         files = {f"/Z/{sfile}": f"# the page itself links to [[{S}]]\n", "/Z/other.zo": other, "/Z/sub/deep/t.zot": texts(S), "/Z/zoq/q.zoq": f"# W [[{S}#x]]\n", "/Z/readme.txt": texts(S),
                  "/Z/plain.zo": "# nothing to retarget here\n- [[unrelated]]\n"}
